@@ -361,6 +361,7 @@ def shards(tier, seed):
            for r in (ROTS + [90] if tier == 'quick' else ROTS + [90, 211, 180]) for sc in ([1.0, 1e-3] if tier == 'quick' else [1.0, 1e-3, 1e3, 1e6])]
     out += [{'what': 'path', 'path': n} for n in list(all_paths(tier)) + list(RAW)]
     out += [{'what': 'int_segment', 'shape': n} for n in INT_SEGMENTS]
+    out += AB.provenance_shards(out, tier, lambda d: d['what'] == 'segment' and d.get('scale', 1.0) == 1.0 or (d['what'] == 'sequence' and d['rot'] == 0 and tier == 'quick'))
     out += [{'what': 'sequence', 'shape': n, 'rot': r, 'depth': 2 if tier == 'quick' else 4}
             for n in (list(AB.LINES) + list(AB.QUADS) + list(AB.CUBICS) + list(AB.ARCS)) for r in ([0] if tier == 'quick' else [0, 37, 211])]
     return out
